@@ -10,6 +10,7 @@ import (
 	"io"
 	"os"
 	"reflect"
+	"sort"
 	"testing"
 
 	sms "github.com/hujm2023/go-sms-protocol"
@@ -140,6 +141,11 @@ func run(c Case) *vk.Violation {
 			b := gen.ByID(s.ID())
 			out, err := b.Fill(v).IEncode()
 			if err == nil {
+				// with -tags verif a pooled buffer is overwritten with 0xDD when it is released: a result that
+				// still points into it is wrong the moment it is returned (its length word no longer says len(out))
+				if s.Hdr != ref.HdrNone && len(out) >= 4 && int(binary.BigEndian.Uint32(out)) != len(out) {
+					return vk.Violf("IEncode:"+s.ID()+"/result-invalid-at-return", c, "step %d: IEncode of %s returned %d octets whose length word is %#x: the result points into a buffer that was released (and poisoned) before the call returned", step, s.ID(), len(out), binary.BigEndian.Uint32(out))
+				}
 				keep(&live{what: "IEncode:" + s.ID(), step: step, b: out, snapB: append([]byte{}, out...)})
 			}
 		case "encodebad":
@@ -184,6 +190,53 @@ func run(c Case) *vk.Violation {
 				keep(&live{step: step, pdu: p, bind: b, snapV: b.Extract(p), fromDecode: true})
 				scribble(netbuf, byte(step)) // the network layer refills its read buffer
 			}
+		case "redecode":
+			// a receive loop that reuses ONE PDU value: decode, take the slices out of it (destination list,
+			// body, optional parameters), decode the next frame into the same value. What was taken out
+			// earlier was produced by a decoder and must not change.
+			s, v := ref.FromJ(*op.Vals)
+			b := gen.ByID(s.ID())
+			img1, err := b.Fill(v).IEncode()
+			if err != nil {
+				continue
+			}
+			p := b.New()
+			if p.IDecode(append([]byte{}, img1...)) != nil {
+				continue
+			}
+			type member struct {
+				name string
+				v    reflect.Value // copy of the slice header / map reference as the caller holds it
+				snap string
+			}
+			var ms []member
+			rv := reflect.ValueOf(p).Elem()
+			for i := 0; i < rv.NumField(); i++ {
+				f := rv.Field(i)
+				if !rv.Type().Field(i).IsExported() {
+					continue
+				}
+				if (f.Kind() == reflect.Slice && f.Len() > 0) || (f.Kind() == reflect.Map && f.Len() > 0) {
+					cp := reflect.New(f.Type()).Elem()
+					cp.Set(f) // the caller's own variable holding the same slice / map
+					ms = append(ms, member{rv.Type().Field(i).Name, cp, fmt.Sprintf("%v", memberDump(cp))})
+				}
+			}
+			// the next frame: same type, other contents, same or smaller counts (so that a reused backing array suffices)
+			v2 := gen.SeedVals(b, uint64(step)*2654435761+uint64(op.Idx), 1+op.Idx%3, 7)
+			img2, err := b.Fill(v2).IEncode()
+			if err != nil {
+				continue
+			}
+			if p.IDecode(append([]byte{}, img2...)) != nil {
+				continue
+			}
+			for _, m := range ms {
+				if now := fmt.Sprintf("%v", memberDump(m.v)); now != m.snap {
+					return vk.Violf(s.ID()+"/member-taken-out-changed-after-redecode", c, "%s.%s was taken out of the PDU decoded first; decoding the next frame into the same PDU value changed it:\nbefore %s\nafter  %s", s.ID(), m.name, clipS(m.snap), clipS(now))
+				}
+			}
+			keep(&live{step: step, pdu: p, bind: b, snapV: b.Extract(p), fromDecode: true})
 		case "string":
 			var pdus []*live
 			for _, l := range lives {
@@ -247,6 +300,9 @@ func run(c Case) *vk.Violation {
 			keep(&live{what: "rebuild:" + op.Proto, step: step, parts: parts, snapP: deep(parts)})
 		case "ucs2":
 			s := cmpp.Utf8ToUcs2Pooled(string(vk.UnHex(op.Text)))
+			if want := ref.UTF16BE(string(vk.UnHex(op.Text))); s != string(want) {
+				return vk.Violf("Utf8ToUcs2Pooled/result-wrong-at-return", c, "step %d: Utf8ToUcs2Pooled of %d octets returned %d octets that are not the UTF-16BE form (first octets %x): the result points into the pooled buffer, which was released before the call returned", step, len(op.Text)/2, len(s), clipS(s[:min(len(s), 16)]))
+			}
 			keep(&live{what: "Utf8ToUcs2Pooled", step: step, str: s, isStr: true, snapB: []byte(s)})
 		case "accessor":
 			// what the accessors of a decoded PDU's optional parameters hand out belongs to the caller as well
@@ -330,6 +386,40 @@ func run(c Case) *vk.Violation {
 	return nil
 }
 
+// memberDump renders what a kept slice / map currently holds (maps in key order; optional-parameter values through their Bytes method).
+func memberDump(v reflect.Value) any {
+	switch v.Kind() {
+	case reflect.Map:
+		var keys []string
+		m := map[string]string{}
+		it := v.MapRange()
+		for it.Next() {
+			k := fmt.Sprint(it.Key().Interface())
+			val := fmt.Sprintf("%v", it.Value().Interface())
+			if bm := it.Value().MethodByName("Bytes"); bm.IsValid() {
+				val = fmt.Sprintf("%x", bm.Call(nil)[0].Bytes())
+			}
+			keys = append(keys, k)
+			m[k] = val
+		}
+		sort.Strings(keys)
+		out := ""
+		for _, k := range keys {
+			out += k + "=" + m[k] + ";"
+		}
+		return out
+	default:
+		return fmt.Sprintf("%#v", v.Interface())
+	}
+}
+
+func clipS(s string) string {
+	if len(s) > 300 {
+		return s[:300] + "..."
+	}
+	return s
+}
+
 func deep(p [][]byte) [][]byte {
 	out := make([][]byte, len(p))
 	for i := range p {
@@ -350,12 +440,16 @@ var texts = []string{"hello", "1234567@abcdefgh", "中文短信内容测试", "[
 	string(bytes.Repeat([]byte("中文"), 80)), string(bytes.Repeat([]byte("[a"), 100))}
 
 var opGen = rapid.Custom(func(t *rapid.T) Op {
-	k := rapid.SampledFrom([]string{"encode", "encode", "encodebad", "decode", "decode", "decode", "framedecode", "string", "split", "batch", "batch", "rebuild", "ucs2", "scribble", "scribble", "accessor", "codec"}).Draw(t, "k")
+	k := rapid.SampledFrom([]string{"encode", "encode", "encodebad", "decode", "decode", "decode", "framedecode", "string", "split", "batch", "batch", "rebuild", "ucs2", "scribble", "scribble", "accessor", "codec", "redecode"}).Draw(t, "k")
 	op := Op{K: k, Idx: rapid.IntRange(0, 47).Draw(t, "idx")}
 	switch k {
 	case "encodebad":
 		b := gen.ByID(rapid.SampledFrom([]string{"cmpp20.PduSubmit", "cmpp30.Submit", "sgip12.Submit", "smgp30.Submit", "cmpp20.PduConnect", "smgp30.Login"}).Draw(t, "badtype"))
 		j := ref.ToJ(b.Spec, gen.DrawVals(t, b, gen.Opts{NoTails: true}))
+		op.Vals = &j
+	case "redecode":
+		b := gen.ByID(rapid.SampledFrom([]string{"smgp30.Submit", "smgp30.Deliver", "smpp34.SubmitSm", "smpp34.DeliverSm", "smpp34.BindResp", "cmpp20.PduSubmit", "cmpp30.Submit", "sgip12.Submit", "sgip12.Deliver", "cmpp20.PduDeliver", "cmpp30.Deliver"}).Draw(t, "retype"))
+		j := ref.ToJ(b.Spec, gen.DrawVals(t, b, gen.Opts{}))
 		op.Vals = &j
 	case "encode", "decode", "framedecode":
 		b := gen.DrawBinding(t, k != "framedecode")
@@ -367,6 +461,10 @@ var opGen = rapid.Custom(func(t *rapid.T) Op {
 		op.Vals = &j
 	case "split", "batch", "ucs2", "codec":
 		op.Text = vk.Hex([]byte(rapid.SampledFrom(texts).Draw(t, "text")))
+		if k == "ucs2" && rapid.IntRange(0, 11).Draw(t, "hugeucs2") == 0 {
+			// more than 32768 UTF-16 units: the pooled conversion buffer grows beyond 64 KiB and stays that large
+			op.Text = vk.Hex(bytes.Repeat([]byte("0123456789abcdef中"), 2100))
+		}
 		op.Proto = rapid.SampledFrom([]string{"cmpp", "smpp"}).Draw(t, "proto")
 		if op.Proto == "cmpp" {
 			op.Coding = rapid.SampledFrom([]int{0, 8, 15}).Draw(t, "coding")
